@@ -24,8 +24,10 @@ which no floating-point evaluation can decide; `rank_extremal` is the unconditio
 **k-factors** (`ksingle`, `kdouble`).  Lean has no executable special functions, so these are
 proved *relative to the specification* `KFactor.Spec` of the library kernels (strictly increasing
 cdfs, `ppf` their inverses, stochastic ordering of the non-central t family); the harness
-evaluates the same defining equations with scipy on every run.  The limit `n → ∞` is checked by
-the oracle only (see PARTIAL in harness/props/c20.py).
+evaluates the same defining equations with scipy on every run.  The limit `n → ∞` of `ksingle` is in
+Props/C20Limit.lean, the root finders (`'p'` query, `_getr`'s Newton loop) in Props/C20Root.lean, the public
+entry points (dispatch, broadcasting, argument arrays) in Props/C20Api.lean; what is still open is listed
+in PARTIAL of harness/props/c20.py.
 -/
 set_option linter.unusedSectionVars false
 namespace PyYetiVerif.C20
